@@ -244,7 +244,13 @@ func GenPool(s sim.Source, cfg PoolCfg) []*model.Pattern {
 	if cfg.Odd && len(out) > 0 {
 		// two wildcards at one position whose names agree up to and including a dot (registering both is a conflict), and
 		// the same under a host label
-		for _, raw := range []string{"/o/{n.a}/x", "/o/{n.b}/y", "/o/*{n.a}"} {
+		oddRaws := []string{"/o/{n.a}/x", "/o/{n.b}/y", "/o/*{n.a}"}
+		if cfg.Hosts {
+			// hostnames of equal length with one and the same path: a parameter label under two names and a static
+			// label as long as the parameter's text (they live side by side under different methods)
+			oddRaws = append(oddRaws, "{x}.o.c/y", "{z}.o.c/y", "abc.o.c/y")
+		}
+		for _, raw := range oddRaws {
 			if p, err := model.Parse(raw); err == nil && !seen[raw] {
 				seen[raw] = true
 				out = append(out, p)
